@@ -103,7 +103,14 @@ func genLight(r *Rand, mode string) *Project {
 			lo = 1
 		}
 		pos := lo + r.Intn(len(ll)-lo+1)
-		ll = append(ll[:pos], append([]string{includeLineText(param, r)}, ll[pos:]...)...)
+		ins := []string{includeLineText(param, r)}
+		if r.Chance(1, 12) {
+			// a directive that is wrong where it stands, directly in front of the INCLUDE: it is still
+			// pending when the included file is opened, and fails when that file's first keyword arrives
+			ins = append([]string{[]string{"200 any", "Body", "Protocol json-rpc-2.0", "Version 1.0"}[r.Intn(4)]}, ins...)
+			p.Kind = "light-" + mode + "-ctx" // not a project that builds: no planted keyword fault (C07 c) on top of it
+		}
+		ll = append(ll[:pos], append(ins, ll[pos:]...)...)
 		g.files[from] = ll
 	}
 	switch mode {
@@ -461,13 +468,17 @@ MACRO @errors
 INCLUDE "inc2.jst" # trailing comment
 `
 
-func truncateCount() int { return (len(richDoc) + 1) * 3 * 4 }
+// tailBytes: what follows the cut. The scanner's state machine meets each of them in every one of
+// its states, as the last byte before the end of the file.
+var tailBytes = []string{"", "\\", "\"", "/", "\x7f", "\x00", "\xff", "\r"}
+
+func truncateCount() int { return (len(richDoc) + 1) * 3 * len(tailBytes) }
 
 func genTruncated(index int) *Project {
 	n := len(richDoc) + 1
 	off := index % n
 	conv := (index / n) % 3
-	extra := (index / n / 3) % 4
+	extra := (index / n / 3) % len(tailBytes)
 	doc := richDoc[:off]
 	switch conv {
 	case 1:
@@ -475,7 +486,7 @@ func genTruncated(index int) *Project {
 	case 2:
 		doc = strings.ReplaceAll(doc, "\n", "\r")
 	}
-	doc += []string{"", "\\", "\"", "/"}[extra]
+	doc += tailBytes[extra]
 	p := &Project{Kind: "truncated-rich-document", Root: "root.jst", Name: fmt.Sprintf("truncate@%d/%d/%d", off, conv, extra)}
 	p.Files = []GenFile{{Path: "root.jst", Data: []byte(doc)}, {Path: "inc.jst", Data: []byte("502 any\n")}, {Path: "inc2.jst", Data: []byte("TAG @t3\n")}}
 	return p
